@@ -11,7 +11,12 @@
                            the spec parses the advertised width out of the NAME and divides by 64.
   Spec: the pattern of the advertised value (`MIN`/`MAX` of the range, the numeral, its negation);
   `BITS = digit bits × N`, `BYTES = BITS / 8`.
-  (The cross-digit-type comparisons of C16 are crate-vs-crate in the harness, not driver requests.)
+  (The cross-digit-type comparisons of C16 are crate-vs-crate in the harness, not driver requests: every
+   request of the C16 run is an ordinary request of another property's vocabulary, answered by that
+   property's handler.  In particular `cast <src> <dst> <hex>` between configurations outside C09's
+   harness grid — every member of the equal-width sets up to 8192 bits, and the (narrow, wide) extension
+   pairs — is served by harness bin c16 (`cast_set!`) and answered here by Drive/C09's handler, which is
+   generic in both configurations: model `castBnum`, spec `Spec.cast`.)
 -/
 import Bnum.Drive.Util
 import Bnum.Model.Consts
